@@ -375,7 +375,7 @@ def handleHist (prop : String) (fs : List (String × String)) : String := Id.run
     let some post := parseObs obsS | return s!"PARSE obs{idx}"
     let now := idx + 1
     let some po := parseOp tok now "S" (findRec pre "S") ghost post.order | return s!"PARSE tok{idx}:{tok}"
-    if po.blocked && bad.isNone then bad := some s!"call-blocked@op{idx}:{tok}"
+    if po.blocked && bad.isNone then bad := some s!"call-blocked-or-panicked@op{idx}:{tok}"
     let (node', outs) := step node po.op
     -- timers first seen alive after this op, ordered by node name like the harness does
     let fresh := node'.timers.filter fun t => !(ghost.any fun g => g.1 == t.node && g.2 == t.changedAt)
@@ -446,6 +446,14 @@ def handleConc (fs : List (String × String)) : String :=
   let calls := (getNat fs "callbacks").getD 0
   s!"{if overlap == 0 then "agree" else "DISAGREE"} {if overlap == 0 then "ok" else s!"BAD:concurrent-event-callbacks:{overlap}-of-{calls}"} nt={if calls > 50 then 1 else 0} br=conc "
 
+/-- C07 (polling leg): every `Members()` result equals the replay of the event stream at some moment of the call -/
+def handlePoll (fs : List (String × String)) : String :=
+  let pan := (getNat fs "panic").getD 0
+  let bad := getD fs "bad" "-"
+  let polls := (getNat fs "polls").getD 0
+  let verdict := if pan != 0 then "BAD:Members()-panicked-while-claims-arrived" else if bad != "-" then s!"BAD:{bad}" else "ok"
+  s!"{if verdict == "ok" then "agree" else "DISAGREE"} {verdict} nt={if polls > 5 then 1 else 0} br=poll-deaths{getD fs "deaths" "?"} "
+
 /-- C08 (simulator leg): Leave returned nil ⇒ a peer had been sent the departure; peers record "left" -/
 def handleLeave (fs : List (String × String)) : String := Id.run do
   if (get fs "err").isSome then return "PARSE create"
@@ -476,6 +484,7 @@ def handle (prop kind : String) (fs : List (String × String)) : String :=
   | "stuck" => s!"DISAGREE BAD:scenario-made-no-progress-for-{getD fs "after" "?"}-of-real-time(virtual-time-cannot-advance:a-goroutine-waits-for-a-lock) nt=0 br=stuck "
   | "src" => handleSrc fs
   | "conc" => handleConc fs
+  | "poll" => handlePoll fs
   | "hist" => handleHist prop fs
   | _ => "PARSE kind"
 
